@@ -16,7 +16,10 @@ def load(pid: str) -> list:
     with open(os.path.join(ROOT, "known_findings.json")) as fh:
         doc = json.load(fh)
     found = list(doc.get("findings", []))
-    d = os.path.join(ROOT, "known_findings.d")   # staging area while checks are being built; merged before release
+    # known_findings.d/ holds what the GROWTH stages (vh/extras.py) record about the unchanged tree: observations outside
+    # every listed statement (see DESIGN.md section 8); vh/main.py never prints them as KNOWN-FINDING lines.  While a check
+    # is being built its findings may also be staged there; tools/merge_findings.py moves those into known_findings.json.
+    d = os.path.join(ROOT, "known_findings.d")
     if os.path.isdir(d):
         for fn in sorted(os.listdir(d)):
             if fn.endswith(".json"):
